@@ -185,7 +185,8 @@ func C08(t *rapid.T) *world.Scenario {
 		if Pct(t, lbl+"-etag", 85) {
 			full.Header = append(full.Header, H("Etag", `"v$S"`))
 		} else {
-			full.Header = append(full.Header, H("Last-Modified", "$T-777"))
+			// (in any of the three HTTP-date layouts: the validator is the field value as it is)
+			full.Header = append(full.Header, H("Last-Modified", Pick(t, lbl+"-lmfmt", "$T-777", "$T-777", "$R-777", "$A-777")))
 		}
 		if withVary && Pct(t, lbl+"-hasvary", 90) {
 			full.Header = append(full.Header, H("Vary", "X-A"))
@@ -496,6 +497,11 @@ func C06(t *rapid.T) *world.Scenario {
 			rp.Body.Len = Pick(t, lbl+"-blen", 10, 100, 5000)
 			rp.Body.FailAt = 1 + rapid.IntRange(0, rp.Body.Len-1).Draw(t, lbl+"-failat")
 			rp.Shape = Pick(t, lbl+"-shape", "cl", "chunked", "close")
+			if Pct(t, lbl+"-short", 25) {
+				// fewer bytes than the Content-Length announces, and a clean end of the stream
+				rp.Body.FailAt, rp.Shape = 0, "cl"
+				rp.Body.ShortBy = 1 + rapid.IntRange(0, rp.Body.Len-1).Draw(t, lbl+"-shortby")
+			}
 		}
 		if len(cc) > 0 {
 			rp.Header = append(rp.Header, H("Cache-Control", JoinCC(MaybeExt(t, lbl+"-rp", cc, 10))))
